@@ -776,7 +776,13 @@ func step(o *hx.Outcome, w *W, sy *sys, m *model, k int, op Op, log *[]string, o
 			}
 		}
 		// classes declared through eval(): registered exactly on the VM that ran the eval (everywhere if the base VM did)
-		for name, on := range sy.evalOn {
+		var evNames []string
+		for name := range sy.evalOn {
+			evNames = append(evNames, name)
+		}
+		sort.Strings(evNames) // (a fixed order: each lookup consumes a map-order decision of the simulator)
+		for _, name := range evNames {
+			on := sy.evalOn[name]
 			c, ok := sy.vm(v).GetClass(name)
 			has := ok && c != nil
 			want := on == 0 || on == v
